@@ -229,7 +229,7 @@ def trans(potential_forms, potential_form_builder):
     raise ConfigurationException("trans() potential modifier only accepts two arguments")
 
   second_form = potential_forms[1]
-  if second_form.potential_form != 'as.constant':
+  if getattr(second_form, 'potential_form', None) != 'as.constant':
     raise ConfigurationException("the second argument to the trans() potential modifier must be 'as.constant' found {}".format(second_form))
 
   if len(second_form.parameters) != 1:
